@@ -57,7 +57,7 @@ func relName(fn *ssa.Function, pkg *types.Package) string {
 
 // Load parses contracts, generates the overlay, loads the package with it and builds SSA.
 func Load(repo, tags string) (*Loaded, error) {
-	con, err := parseContracts(filepath.Join(repo, "ecs"))
+	con, err := parseContracts(filepath.Join(repo, "ecs"), tags)
 	if err != nil {
 		return nil, err
 	}
@@ -112,6 +112,35 @@ func Load(repo, tags string) (*Loaded, error) {
 	for fn := range ssautil.AllFunctions(prog) {
 		if fn.Pkg == L.SPkg || (fn.Origin() != nil && fn.Origin().Pkg == L.SPkg) {
 			L.Funcs[fn.RelString(L.SPkg.Pkg)] = fn
+		}
+	}
+	// methods and functions that nothing references are not "reachable" for AllFunctions
+	var addFn func(fn *ssa.Function)
+	addFn = func(fn *ssa.Function) {
+		if fn == nil {
+			return
+		}
+		n := fn.RelString(L.SPkg.Pkg)
+		if _, ok := L.Funcs[n]; !ok {
+			L.Funcs[n] = fn
+		}
+		for _, a := range fn.AnonFuncs {
+			addFn(a)
+		}
+	}
+	for _, m := range L.SPkg.Members {
+		switch mm := m.(type) {
+		case *ssa.Function:
+			addFn(mm)
+		case *ssa.Type:
+			for _, t := range []types.Type{mm.Type(), types.NewPointer(mm.Type())} {
+				ms := prog.MethodSets.MethodSet(t)
+				for i := 0; i < ms.Len(); i++ {
+					if f := prog.MethodValue(ms.At(i)); f != nil && f.Synthetic == "" {
+						addFn(f)
+					}
+				}
+			}
 		}
 	}
 	return L, nil
@@ -438,6 +467,10 @@ func genOverlay(p *packages.Package, con *Contracts, L *Loaded) (string, []strin
 	}
 	var hdr strings.Builder
 	hdr.WriteString("//go:build verif\n\npackage ecs\n\n")
+	g.imports["math/bits"] = "bits"
+	g.imports["unsafe"] = "unsafe"
+	g.imports["reflect"] = "reflect"
+	body.WriteString("\nvar _ = bits.OnesCount64\nvar _ unsafe.Pointer\nvar _ reflect.Type\n")
 	var imps []string
 	for path := range g.imports {
 		imps = append(imps, path)
